@@ -18,6 +18,9 @@ TYPES = [8, 9, 18, 0, 255]
 
 
 def gen_cases(tier, rng):
+    # subscribers joining a real Group while the publisher keeps broadcasting (distinct seeds = distinct lines)
+    for k in range(6 if tier == "quick" else 40):
+        yield Case("c11.joinrace %d %d" % (k % 2, 40 + k), cls="joinrace")
     lens = LENS_T if tier == "thorough" else LENS_Q
     # tag pack / read
     for n in lens:
@@ -206,6 +209,8 @@ def oracle(c, out):
     if out.startswith(("panic@", "crash@", "timeout")):
         return (False, "implementation crashed: " + out)
     try:
+        if op == "c11.joinrace":
+            return (out == "ok", "a subscriber that joined while the publisher was broadcasting did not get the HTTP response and the FLV header first: " + out[:160])
         if op == "c11.pack":
             t, ts, p = num(f[1]), num(f[2]), tok_bytes(f[3])
             if not (t < 256 and ts < 2**32 and len(p) < 2**24):
